@@ -28,6 +28,7 @@ import itertools
 import re
 
 from .. import AnalysisError
+from .. import inline as _inline
 from ..flow import Flow
 from ..report import Report
 from ..util import where, norm, names_in, call_name, assigned_value
@@ -2623,6 +2624,8 @@ def _next_values(M, f, e, st, src_of, fl=None, depth=0):
     why = src_of(e, st)
     if why is True:
         return [('max+', 0)]
+    if isinstance(why, list):  # the source itself has alternatives (max with a default, a helper with several returns)
+        return why
     return [('bad', why or f'{norm(e)[:70]} is not max(<run ids of all primary keys>) / a constant')]
 
 
@@ -2639,96 +2642,150 @@ def _rule2(ctx, rep, M):
         rep.analysed(f)
         r.instance()
 
-        def all_runs(x):
-            """x lists the run field of every primary key (no filter)? -> True | reason"""
-            if isinstance(x, ast.Name):
-                vals = assigned_value(f, x.id)
-                if len(vals) != 1:
-                    return f'{x.id} has {len(vals)} definitions'
-                v0 = vals[0]
-                empty = (isinstance(v0, ast.List) and not v0.elts) or (
-                    isinstance(v0, ast.Call) and isinstance(v0.func, ast.Name) and v0.func.id in ('list', 'set') and not v0.args)
-                if empty:
-                    return filled_by_loop(x.id)
-                return all_runs(v0)
-            if isinstance(x, ast.Call) and isinstance(x.func, ast.Name) and x.func.id in ('list', 'set', 'sorted', 'tuple') and len(x.args) == 1 and not x.keywords:
-                return all_runs(x.args[0])
-            if not isinstance(x, (ast.ListComp, ast.GeneratorExp, ast.SetComp)) or len(x.generators) != 1:
-                return f'{norm(x)[:70]} is not a comprehension over the primary keys'
-            g = x.generators[0]
-            if g.ifs:
-                return f'the run ids are filtered by {norm(g.ifs[0])[:60]}: ids stored under other keys are ignored'
-            E = Eval(prog, M, strict=False)
-            whole = {('listof', ('pkey',)), ('table', PRIME), ('keys', PRIME), ('items', PRIME)}
-            for it in E.ev(g.iter, frozenset(), f):
-                if it not in whole:
-                    return f'{norm(g.iter)[:70]} does not enumerate the (decoded) keys of the whole primary table'
-                for el in elem_of(it):
-                    for en in E.bind(g.target, el, frozenset()):
-                        if E.ev(x.elt, en, f) != [('pkpos', 0)]:
-                            return f'{norm(x.elt)} is not the run field (position 0) of the key'
-            r.extra['next_source'] = norm(g.iter)
-            return True
+        E0 = Eval(prog, M, strict=False)
 
-        def filled_by_loop(name):
-            """name = []; for key in <all primary keys>: name.append(<run field>)  (no condition in between)"""
-            apps = [n for n in f.own_nodes() if isinstance(n, ast.Call) and isinstance(n.func, ast.Attribute)
-                    and n.func.attr in ('append', 'add') and isinstance(n.func.value, ast.Name) and n.func.value.id == name]
-            others = [n for n in f.own_nodes() if isinstance(n, ast.Call) and isinstance(n.func, ast.Attribute)
-                      and isinstance(n.func.value, ast.Name) and n.func.value.id == name and n.func.attr in MUTATORS and n not in apps]
-            if len(apps) != 1 or others or len(apps[0].args) != 1:
-                return f'{name} is not filled by exactly one append in a loop'
-            loops = [n for n in f.own_nodes() if isinstance(n, ast.For)
-                     and any(isinstance(b, ast.Expr) and b.value is apps[0] for b in n.body)]
-            if len(loops) != 1 or loops[0].orelse:
-                return f'{norm(apps[0])} is conditional or not directly in a for loop: run ids may be skipped'
-            lp = loops[0]
-            if any(isinstance(b, (ast.Continue, ast.Break, ast.If, ast.Return, ast.Try)) for b in lp.body[: [i for i, b in enumerate(lp.body) if isinstance(b, ast.Expr) and b.value is apps[0]][0]]):
-                return f'the loop around {norm(apps[0])} can skip keys'
-            fake = ast.ListComp(elt=apps[0].args[0], generators=[ast.comprehension(target=lp.target, iter=lp.iter, ifs=[], is_async=0)])
-            E = Eval(prog, M, strict=False)
-            en0 = frozenset()
-            whole = {('listof', ('pkey',)), ('table', PRIME), ('keys', PRIME), ('items', PRIME)}
-            for it in E.ev(lp.iter, en0, f):
-                if it not in whole:
-                    return f'{norm(lp.iter)[:70]} does not enumerate the (decoded) keys of the whole primary table'
-                for el in elem_of(it):
-                    for en in E.bind(lp.target, el, en0):
-                        # statements before the append may define locals used by it
-                        body = _Body(E, f)
-                        pre = lp.body[: [i for i, b in enumerate(lp.body) if isinstance(b, ast.Expr) and b.value is apps[0]][0]]
-                        outs = body.block(pre, {en}).normal
-                        for en2 in outs:
-                            if E.ev(fake.elt, en2, f) != [('pkpos', 0)]:
-                                return f'{norm(fake.elt)} is not the run field (position 0) of the key'
-            r.extra['next_source'] = norm(lp.iter)
-            return True
+        def local_env(fn, seed):
+            """abstract values of the parameters (seed) and of the locals of fn that are bound exactly once by a plain
+            assignment (``dbi = DBI()``): what a name in a later expression of fn stands for"""
+            env = dict(seed)
+            stores = {}
+            for n in fn.own_nodes():
+                if isinstance(n, ast.Name) and isinstance(n.ctx, (ast.Store, ast.Del)):
+                    stores[n.id] = stores.get(n.id, 0) + 1
+            asg = [n for n in fn.own_nodes() if isinstance(n, ast.Assign) and len(n.targets) == 1 and isinstance(n.targets[0], ast.Name)]
+            for n in sorted(asg, key=lambda n: (n.lineno, n.col_offset)):
+                name = n.targets[0].id
+                if stores.get(name) == 1 and name not in fn.params():
+                    v = E0.ev1(n.value, frozenset(env.items()), fn)
+                    if v != UNK:
+                        env[name] = v
+            return frozenset(env.items())
 
-        def src_shelve(e, st):
-            # max(X) / max(X, default=c) / sorted(X)[-1]
-            if isinstance(e, ast.Call) and isinstance(e.func, ast.Name) and e.func.id == 'max' and len(e.args) == 1:
-                x = e.args[0]
-                kw = {k.arg: k.value for k in e.keywords}
-                a = all_runs(x)
-                if a is not True:
-                    return a
-                if 'default' in kw:
-                    return 'max(..., default=) is not understood' if not isinstance(kw['default'], ast.Constant) else True
-                if isinstance(x, ast.Name) and (x.id, 'nonempty') in st:
-                    return True
-                return f'{norm(e)} is evaluated without a preceding emptiness test: it raises on an empty database'
-            if isinstance(e, ast.Subscript) and norm(e.slice) == '-1' and isinstance(e.value, ast.Call) \
-                    and isinstance(e.value.func, ast.Name) and e.value.func.id == 'sorted' and len(e.value.args) == 1 and not e.value.keywords:
-                x = e.value.args[0]
-                a = all_runs(x)
-                if a is not True:
-                    return a
-                if isinstance(x, ast.Name) and (x.id, 'nonempty') in st:
-                    return True
-                return f'{norm(e)} is evaluated without a preceding emptiness test'
-            return None
+        def through_helper(call, fn, env, depth):
+            """values of a call of a helper that did not exist when the rule was written (run-id list / maximum moved out
+            of next()): the helper's returns are judged like the returns of next(), its parameters bound to the arguments"""
+            h = prog.func_of(prog.resolve_in(call.func, fn)) if isinstance(call.func, (ast.Name, ast.Attribute)) else None
+            if h is None or h is fn or depth >= 2 or h.qname in _inline.baseline() or not h.qname.startswith(SHELVE + '.'):
+                return None
+            bindings = E0.bind_call(h, call, fn, env)
+            if not bindings:
+                return f'{norm(call)[:60]}: the arguments cannot be bound to the parameters of {h.name}'
+            rep.analysed(h)
+            out = []
+            for b in bindings:
+                fl = _Next()
+                o = fl.run(h.node, frozenset())
+                if o.normal:
+                    out.append(('bad', f'a path of {h.name} falls off the end (returns None)'))
+                src = make_src(h, local_env(h, b), depth + 1)
+                for node, st in fl.rets:
+                    if node.value is None:
+                        out.append(('bad', f'a bare return in {h.name}'))
+                    else:
+                        out += _next_values(M, h, node.value, st, src, fl)
+            return out
 
-        _judge_next(r, M, f, src_shelve, 'dawgie.db.shelve.next')
+        def make_src(f, env, depth=0):  # pylint: disable=redefined-outer-name
+            def all_runs(x):
+                """x lists the run field of every primary key (no filter)? -> True | reason"""
+                if isinstance(x, ast.Name):
+                    vals = assigned_value(f, x.id)
+                    if len(vals) != 1:
+                        return f'{x.id} has {len(vals)} definitions'
+                    v0 = vals[0]
+                    empty = (isinstance(v0, ast.List) and not v0.elts) or (
+                        isinstance(v0, ast.Call) and isinstance(v0.func, ast.Name) and v0.func.id in ('list', 'set') and not v0.args)
+                    if empty:
+                        return filled_by_loop(x.id)
+                    return all_runs(v0)
+                if isinstance(x, ast.Call) and isinstance(x.func, ast.Name) and x.func.id in ('list', 'set', 'sorted', 'tuple') and len(x.args) == 1 and not x.keywords:
+                    return all_runs(x.args[0])
+                if not isinstance(x, (ast.ListComp, ast.GeneratorExp, ast.SetComp)) or len(x.generators) != 1:
+                    return f'{norm(x)[:70]} is not a comprehension over the primary keys'
+                g = x.generators[0]
+                if g.ifs:
+                    return f'the run ids are filtered by {norm(g.ifs[0])[:60]}: ids stored under other keys are ignored'
+                E = Eval(prog, M, strict=False)
+                whole = {('listof', ('pkey',)), ('table', PRIME), ('keys', PRIME), ('items', PRIME)}
+                for it in E.ev(g.iter, env, f):
+                    if it not in whole:
+                        return f'{norm(g.iter)[:70]} does not enumerate the (decoded) keys of the whole primary table'
+                    for el in elem_of(it):
+                        for en in E.bind(g.target, el, env):
+                            if E.ev(x.elt, en, f) != [('pkpos', 0)]:
+                                return f'{norm(x.elt)} is not the run field (position 0) of the key'
+                r.extra['next_source'] = norm(g.iter)
+                return True
+
+            def filled_by_loop(name):
+                """name = []; for key in <all primary keys>: name.append(<run field>)  (no condition in between)"""
+                apps = [n for n in f.own_nodes() if isinstance(n, ast.Call) and isinstance(n.func, ast.Attribute)
+                        and n.func.attr in ('append', 'add') and isinstance(n.func.value, ast.Name) and n.func.value.id == name]
+                others = [n for n in f.own_nodes() if isinstance(n, ast.Call) and isinstance(n.func, ast.Attribute)
+                          and isinstance(n.func.value, ast.Name) and n.func.value.id == name and n.func.attr in MUTATORS and n not in apps]
+                if len(apps) != 1 or others or len(apps[0].args) != 1:
+                    return f'{name} is not filled by exactly one append in a loop'
+                loops = [n for n in f.own_nodes() if isinstance(n, ast.For)
+                         and any(isinstance(b, ast.Expr) and b.value is apps[0] for b in n.body)]
+                if len(loops) != 1 or loops[0].orelse:
+                    return f'{norm(apps[0])} is conditional or not directly in a for loop: run ids may be skipped'
+                lp = loops[0]
+                if any(isinstance(b, (ast.Continue, ast.Break, ast.If, ast.Return, ast.Try)) for b in lp.body[: [i for i, b in enumerate(lp.body) if isinstance(b, ast.Expr) and b.value is apps[0]][0]]):
+                    return f'the loop around {norm(apps[0])} can skip keys'
+                fake = ast.ListComp(elt=apps[0].args[0], generators=[ast.comprehension(target=lp.target, iter=lp.iter, ifs=[], is_async=0)])
+                E = Eval(prog, M, strict=False)
+                en0 = env
+                whole = {('listof', ('pkey',)), ('table', PRIME), ('keys', PRIME), ('items', PRIME)}
+                for it in E.ev(lp.iter, en0, f):
+                    if it not in whole:
+                        return f'{norm(lp.iter)[:70]} does not enumerate the (decoded) keys of the whole primary table'
+                    for el in elem_of(it):
+                        for en in E.bind(lp.target, el, en0):
+                            # statements before the append may define locals used by it
+                            body = _Body(E, f)
+                            pre = lp.body[: [i for i, b in enumerate(lp.body) if isinstance(b, ast.Expr) and b.value is apps[0]][0]]
+                            outs = body.block(pre, {en}).normal
+                            for en2 in outs:
+                                if E.ev(fake.elt, en2, f) != [('pkpos', 0)]:
+                                    return f'{norm(fake.elt)} is not the run field (position 0) of the key'
+                r.extra['next_source'] = norm(lp.iter)
+                return True
+
+            def src_shelve(e, st):
+                # max(X) / max(X, default=c) / sorted(X)[-1]
+                if isinstance(e, ast.Call) and isinstance(e.func, ast.Name) and e.func.id == 'max' and len(e.args) == 1:
+                    x = e.args[0]
+                    kw = {k.arg: k.value for k in e.keywords}
+                    a = all_runs(x)
+                    if a is not True:
+                        return a
+                    if 'default' in kw:
+                        # max(xs, default=c): the maximum when there are run ids, the constant c when there are none
+                        d = kw['default']
+                        if isinstance(d, ast.UnaryOp) and isinstance(d.op, ast.USub) and isinstance(d.operand, ast.Constant) and type(d.operand.value) is int:
+                            return [('max+', 0), ('const', -d.operand.value)]
+                        if not (isinstance(d, ast.Constant) and type(d.value) is int):
+                            return 'max(..., default=) with a default that is not an integer literal is not understood'
+                        return [('max+', 0), ('const', d.value)]
+                    if isinstance(x, ast.Name) and (x.id, 'nonempty') in st:
+                        return True
+                    return f'{norm(e)} is evaluated without a preceding emptiness test: it raises on an empty database'
+                if isinstance(e, ast.Subscript) and norm(e.slice) == '-1' and isinstance(e.value, ast.Call) \
+                        and isinstance(e.value.func, ast.Name) and e.value.func.id == 'sorted' and len(e.value.args) == 1 and not e.value.keywords:
+                    x = e.value.args[0]
+                    a = all_runs(x)
+                    if a is not True:
+                        return a
+                    if isinstance(x, ast.Name) and (x.id, 'nonempty') in st:
+                        return True
+                    return f'{norm(e)} is evaluated without a preceding emptiness test'
+                if isinstance(e, ast.Call):
+                    return through_helper(e, f, env, depth)
+                return None
+
+            return src_shelve
+
+        _judge_next(r, M, f, make_src(f, local_env(f, {})), 'dawgie.db.shelve.next')
         # ---- post sibling
         pq = 'dawgie.db.post.next'
         if prog.has_func(pq):
@@ -3219,6 +3276,9 @@ def _rule6(ctx, rep):
 
 
 def check(ctx):
+    # sa/inline.py caches normal forms under id(prog): a Program created after an earlier one was freed (variants
+    # analysed one after the other in one process) can get the same id and be served the earlier program's functions
+    _inline._CACHE.clear()
     rep = Report(
         PID,
         ctx.tier,
@@ -3261,6 +3321,18 @@ def check(ctx):
 
 U, I, ST, CM, WM, PO = 'db/shelve/util.py', 'db/shelve/__init__.py', 'db/shelve/state.py', 'db/shelve/comms.py', 'db/tools/worm.py', 'db/post/__init__.py'
 _FIXED_PRED = 'lambda t, p=parent, n=name: dissect(t[0])[:2] == (p, n),'
+_NEXT_TAIL = "    known = [int(key[0]) for key in util.prime_keys(DBI().tables.prime)]\n    return max(known) + 1 if known else 1\n"
+
+
+def _next_with_helper(elt='int(key[0])', cond='', ret='max(known, default=0)', k='+ 1', table='prime'):
+    """next() with the run-id list / maximum moved into a new helper that takes the table as a parameter"""
+    return (
+        f"    dbi = DBI()\n    return _largest_runid(dbi.tables.{table}) {k}\n\n\n"
+        "def _largest_runid(prime_table):\n"
+        f"    known = [{elt} for key in util.prime_keys(prime_table){cond}]\n    return {ret}\n"
+    )
+
+
 VARIANTS = [
     V('index appended before the table store', 'B', 'db/shelve/util.py', 'append', 'table[name] = len(index)\n        index.append(name)', 'index.append(name)\n        table[name] = len(index) - 1', 'R-C08-6'),
     # ---- breaking (the old text of the first three exists only once the pending fix C08-1 is applied)
@@ -3286,6 +3358,15 @@ VARIANTS = [
       'for key in util.prime_keys(DBI().tables.prime) if key[1] == 0]', 'R-C08-2'),
     V('next = max (k = 0)', 'B', I, 'next', 'max(known) + 1 if known', 'max(known) if known', 'R-C08-2'),
     V('next takes the target field', 'B', I, 'next', 'int(key[0]) for key', 'int(key[1]) for key', 'R-C08-2'),
+    V('next: maximum in a new helper, max(known, default=0) + 1', 'N', I, None, _NEXT_TAIL, _next_with_helper(), None),
+    V('next: max(known, default=0) + 1 in place', 'N', I, 'next', 'max(known) + 1 if known else 1', 'max(known, default=0) + 1', None),
+    V('next: table bound through a local DBI()', 'N', I, 'next', 'known = [int(key[0]) for key in util.prime_keys(DBI().tables.prime)]', 'dbi = DBI()\n    known = [int(key[0]) for key in util.prime_keys(dbi.tables.prime)]', None),
+    V('next: helper returns the maximum, next adds nothing', 'B', I, None, _NEXT_TAIL, _next_with_helper(k='+ 0'), 'R-C08-2'),
+    V('next: helper filters the keys', 'B', I, None, _NEXT_TAIL, _next_with_helper(cond=' if key[1] == 0'), 'R-C08-2'),
+    V('next: helper takes the target field', 'B', I, None, _NEXT_TAIL, _next_with_helper(elt='int(key[1])'), 'R-C08-2'),
+    V('next: helper counts instead of taking the maximum', 'B', I, None, _NEXT_TAIL, _next_with_helper(ret='len(known)'), 'R-C08-2'),
+    V('next: helper is handed another table', 'B', I, None, _NEXT_TAIL, _next_with_helper(table='target'), 'R-C08-2'),
+    V('next: helper maximum without default on an empty table', 'B', I, None, _NEXT_TAIL, _next_with_helper(ret='max(known)'), 'R-C08-2'),
     V('post.next restricted by WHERE', 'B', PO, 'next', "'SELECT MAX(run_ID) from Prime;'", "'SELECT MAX(run_ID) from Prime WHERE tn_ID = 1;'", 'R-C08-2'),
     V('reset: primary prefix without the closing comma', 'B', I, 'reset', "str(tuple(pk)).replace(')', ',')", "str(tuple(pk)).replace(')', '')", 'R-C08-3'),
     V('trace: selection without the parent', 'B', I, 'trace', 'util.subset(DBI().tables.alg, algn, [tskid])', 'util.subset(DBI().tables.alg, algn)', 'R-C08-3'),
